@@ -5,12 +5,19 @@ open Common
 let blist (tok : string) : n list list =
   if tok = "." then [] else List.map bytes_of_hex (String.split_on_char ',' tok)
 
+(* configured ingresses: "<hex scheme://host>/<hex URL.Path>" joined by ',' *)
+let ilist (tok : string) : (n list * n list) list =
+  if tok = "." then [] else
+  List.map (fun x -> match String.split_on_char '/' x with
+                     | [o; p] -> (bytes_of_hex o, bytes_of_hex p)
+                     | _ -> failwith "bad ingress token") (String.split_on_char ',' tok)
+
 let print_ns (l : n list) = print_endline (String.concat " " (List.map (fun x -> string_of_int (int_of_n x)) l))
 
 let () = register "rtroute" (fun toks ->
   match toks with
   | [mode; idp; prefixes; meth; raw; path; hmode; hdest; accepts; acrm] ->
-    print_ns (entry_rt_route (n_of_int (int_of_string mode)) (n_of_int (int_of_string idp)) (blist prefixes)
+    print_ns (entry_rt_route (n_of_int (int_of_string mode)) (n_of_int (int_of_string idp)) (ilist prefixes)
                 (bytes_of_hex meth) (bytes_of_hex raw) (bytes_of_hex path) (bytes_of_hex hmode) (bytes_of_hex hdest)
                 (blist accepts) (bytes_of_hex acrm))
   | _ -> print_endline "?bad route line")
@@ -38,7 +45,7 @@ let () = register "setpath" (fun toks ->
 let () = register "rtarget" (fun toks ->
   match toks with
   | [mode; idp; prefixes; meth; p; hmode; hdest; accepts; acrm] ->
-    print_ns (entry_route_target (n_of_int (int_of_string mode)) (n_of_int (int_of_string idp)) (blist prefixes)
+    print_ns (entry_route_target (n_of_int (int_of_string mode)) (n_of_int (int_of_string idp)) (ilist prefixes)
                 (bytes_of_hex meth) (bytes_of_hex p) (bytes_of_hex hmode) (bytes_of_hex hdest)
                 (blist accepts) (bytes_of_hex acrm))
   | _ -> print_endline "?bad rtarget line")
@@ -46,7 +53,7 @@ let () = register "rtarget" (fun toks ->
 let () = register "rtable" (fun toks ->
   match toks with
   | [mode; idp; prefixes; base] ->
-    let rows = entry_route_table (n_of_int (int_of_string mode)) (n_of_int (int_of_string idp)) (blist prefixes)
+    let rows = entry_route_table (n_of_int (int_of_string mode)) (n_of_int (int_of_string idp)) (ilist prefixes)
                  (n_of_int (int_of_string base)) in
     let strs = List.map (fun ((m, p), k) -> Printf.sprintf "%d/%s/%d" (int_of_n m) (hex_of_bytes p) (int_of_n k)) rows in
     print_endline (String.concat " " (List.sort compare strs))
@@ -58,3 +65,10 @@ let () = register "ehref" (fun toks ->
   match toks with [s] -> print_bytes (entry_render_href (bytes_of_hex s)) | _ -> print_endline "?bad ehref line")
 let () = register "ufilter" (fun toks ->
   match toks with [s] -> print_bytes (entry_url_filter (bytes_of_hex s)) | _ -> print_endline "?bad ufilter line")
+
+let () = register "rtingress" (fun toks ->
+  match toks with
+  | [ings] ->
+    let ps = List.sort compare (List.map hex_of_bytes (entry_ingress_paths (ilist ings))) in
+    print_endline (String.concat " " ("K" :: ps))
+  | _ -> print_endline "?bad rtingress line")
